@@ -5,6 +5,7 @@ import json
 import shutil
 import random
 import importlib
+import signal
 import itertools
 import subprocess
 
@@ -62,8 +63,25 @@ FLOORS = {
 _cycle_mod = importlib.import_module(sut.formulas.__name__ + '.excel.cycle')  # observe_at: formulas.excel.cycle.simple_cycles
 
 
-def simple_cycles(*a, **kw):
-    return _cycle_mod.simple_cycles(*a, **kw)
+class CycTimeout(BaseException):
+    pass
+
+
+def _vt_handler(signum, frame):
+    raise CycTimeout()
+
+
+def simple_cycles_list(cpu_s, *a, **kw):
+    """list(simple_cycles(...)) under a limit on the CPU time of this process (ITIMER_VIRTUAL: independent of
+    machine load).  A graph of <= 9 nodes needs microseconds to milliseconds; a trip is recorded as inconclusive
+    for that graph only, the other graphs of the block are still checked."""
+    old = signal.signal(signal.SIGVTALRM, _vt_handler)
+    signal.setitimer(signal.ITIMER_VIRTUAL, cpu_s)
+    try:
+        return list(_cycle_mod.simple_cycles(*a, **kw))
+    finally:
+        signal.setitimer(signal.ITIMER_VIRTUAL, 0)
+        signal.signal(signal.SIGVTALRM, old)
 
 
 # ==========================================================================
@@ -78,20 +96,24 @@ def _dedup(fails, per_sig=2):
     return out
 
 
-def check_graph(nodes, edges, skip=(), copy=True, aslist=False, tag=''):
-    """-> (fails, number of elementary cycles, has a cycle of length >= 2)"""
+def check_graph(nodes, edges, skip=(), copy=True, aslist=False, tag='', cpu_s=1.0):
+    """-> (fails, number of elementary cycles, has a cycle of length >= 2); fails is None if simple_cycles did
+    not return within cpu_s seconds of CPU time (inconclusive)"""
     g = {v: set() for v in nodes}
     for a, b in edges:
         g[a].add(b)
     sk = set(skip)
     ref = {v: {w for w in s if w not in sk} for v, s in g.items() if v not in sk}
     exp = set(L.brute_cycles(ref))
-    if copy or sk:
-        inp = {v: (sorted(s) if aslist else set(s)) for v, s in g.items()}
-        got = list(simple_cycles(inp, copy=copy, skip_nodes=list(skip)))
-    else:
-        inp = {v: set(s) for v, s in g.items()}
-        got = list(simple_cycles(inp, copy=False))
+    try:
+        if copy or sk:
+            inp = {v: (sorted(s) if aslist else set(s)) for v, s in g.items()}
+            got = simple_cycles_list(cpu_s, inp, copy=copy, skip_nodes=list(skip))
+        else:
+            inp = {v: set(s) for v, s in g.items()}
+            got = simple_cycles_list(cpu_s, inp, copy=False)
+    except CycTimeout:
+        return None, len(exp), any(len(c) >= 2 for c in exp)
     fails = []
     norm = []
     for c in got:
@@ -127,7 +149,10 @@ def check_cycblock(case):
     fails, labels, nt = [], [], 0
     for mask in range(case['lo'], case['hi']):
         edges = [(nodes[a], nodes[b]) for i, (a, b) in enumerate(pairs) if mask >> i & 1]
-        f, ncyc, long_ = check_graph(nodes, edges, tag='|n%d' % n)
+        f, ncyc, long_ = check_graph(nodes, edges, tag='|n%d' % n, cpu_s=0.25)
+        if f is None:
+            labels.append('inconclusive:cycles-cpu-limit')
+            continue
         fails += f
         nt += long_
         labels.append('cyc:%s' % ('0' if ncyc == 0 else '1' if ncyc == 1 else '2-5' if ncyc <= 5 else '6+'))
@@ -140,6 +165,8 @@ def check_cyc(case):
         return R(labels=['cyc:bad-case'])
     f, ncyc, long_ = check_graph(nodes, [tuple(e) for e in case['edges']], case.get('skip', ()),
                                  case.get('copy', True), case.get('aslist', False), tag='|random')
+    if f is None:
+        return R(labels=['cycrand', 'inconclusive:cycles-cpu-limit'])
     lb = ['cycrand', 'cycrand:%s' % ('0' if ncyc == 0 else '1-5' if ncyc <= 5 else '6-50' if ncyc <= 50 else '51+')]
     if case.get('skip'):
         lb.append('cycrand:skip_nodes')
